@@ -116,3 +116,52 @@ func tieKeyUnit(r *engine.Rec) {
 	r.Transitions += r.Evals
 	r.Sample(tieCase{"any", []int{1, 0}, []int{2, 1}, "SortValues"})
 }
+
+// largeUnderScheduler: sorts long enough to cross any size threshold run as
+// one-thread programs under the scheduler: when SortValues returns, the array
+// is sorted and no goroutine it may have started is still running (a helper
+// that outlives the call would still be writing into the caller's array).
+func largeUnderScheduler(r *engine.Rec) {
+	type lc struct {
+		N     int    `json:"n"`
+		Shape string `json:"shape"`
+	}
+	for _, n := range []int{600, 1025, 2049, 4097} {
+		for sname, f := range map[string]func(i int) int{
+			"reversed":      func(i int) int { return n - i },
+			"pseudo-random": func(i int) int { return (i*7919 + 13) % (n + 3) },
+		} {
+			c := lc{n, sname}
+			if !r.Wanted(c) {
+				continue
+			}
+			a := make([]int, n)
+			for i := range a {
+				a[i] = f(i)
+			}
+			live, sortedAtReturn := 0, true
+			var out rt.Outcome
+			ex := rt.RunOnce(rt.Config{Elide: true}, nil, []rt.ThreadSpec{{Name: "caller", Body: func() {
+				out = rt.Protect(budget(n)*4, func() { age.Sorter[int]().Make().SortValues(a) })
+				live = rt.LiveLibraryThreads()
+				for i := 0; i+1 < len(a); i++ {
+					if a[i] > a[i+1] {
+						sortedAtReturn = false
+					}
+				}
+			}}})
+			r.Evals++
+			r.Transitions++
+			switch {
+			case out.Panicked || out.Fuel || len(ex.Stuck) > 0:
+				r.Violation("SortValues of a long array fails or never returns", fmt.Sprintf("%+v: %s %v", c, out.Value, ex.SortedStuck()), c)
+			case live > 0:
+				r.Violation("a goroutine started by SortValues is still running when SortValues has returned", fmt.Sprintf("%+v: %d goroutines", c, live), c)
+			case !sortedAtReturn:
+				r.Violation("SortValues of a long array returns an array that is not ascending", fmt.Sprintf("%+v", c), c)
+			}
+		}
+	}
+	r.States += 8
+	r.Distinct += 8
+}
